@@ -10,6 +10,7 @@ import MV.Driver.InvCDF
 import MV.Driver.Fit
 import MV.Driver.KDE
 import MV.Driver.TTest
+import MV.Driver.Dists
 open MV
 
 /-- ops whose handler models panics itself -/
@@ -29,6 +30,10 @@ def dispatchOp (ins outs : List J) : Verdict :=
   | .atom "lls" :: rest => Fit.handleLLS rest outs
   | .atom "kde" :: rest => KDE.handleKDE rest outs
   | .atom "tt" :: rest => TTest.handleTT rest outs
+  | .atom "nd" :: rest => Dists.handleND rest outs
+  | .atom "td" :: rest => Dists.handleTD rest outs
+  | .atom "dd" :: rest => Dists.handleDD rest outs
+  | .atom "mx" :: rest => Dists.handleMX rest outs
   | .atom "meanci" :: rest => TTest.handleMeanCI rest outs
   | .atom "bw" :: rest => KDE.handleBW rest outs
   | .atom "preg" :: rest => Fit.handlePReg rest outs
